@@ -1,0 +1,9 @@
+//go:build !verif
+
+// Copyright (c) Microsoft Corporation.
+// Licensed under the MIT License.
+
+package cmd
+
+// verifHook does nothing unless yardl is built with the "verif" tag (see verif_hook_on.go).
+func verifHook(point string) {}
